@@ -6,8 +6,8 @@
 (* per-operation bookkeeping (planned instances from the allocation calls,     *)
 (* containers created / logged before a crash) that the predicates need.       *)
 EXTENDS ClusterState, TraceBase
-VARIABLES l, hdr, pre, prior, planned, injected, crashed, msgs, retv, created, logged, nalloc
-tvars == <<l, hdr, pre, prior, planned, injected, crashed, msgs, retv, created, logged, nalloc>>
+VARIABLES l, hdr, pre, prior, planned, injected, crashed, msgs, retv, created, logged, nalloc, natural
+tvars == <<l, hdr, pre, prior, planned, injected, crashed, msgs, retv, created, logged, nalloc, natural>>
 
 OpKind == hdr.scenario.op.kind
 Where == OpKind \o "/" \o (IF crashed # "none" THEN "crash@" \o crashed ELSE IF injected # "none" THEN "fault@" \o injected ELSE "fault-free")
@@ -74,7 +74,7 @@ WhyRecovered(s) == IF ~(\A id \in WlIds(pre) : PartUntouched(s, id)) THEN "pre-e
                    ELSE "unrecorded-container-left"
 
 TraceInit == /\ l = 1 /\ hdr = <<>> /\ pre = <<>> /\ prior = <<>> /\ planned = <<>> /\ injected = "none" /\ crashed = "none"
-             /\ msgs = <<>> /\ retv = <<>> /\ created = 0 /\ logged = 0 /\ nalloc = <<>>
+             /\ msgs = <<>> /\ retv = <<>> /\ created = 0 /\ logged = 0 /\ nalloc = <<>> /\ natural = "none"
 StateChecks(s, when) ==
     /\ Report(UsageIsSum(s), "C10", l, "usage-differs-from-workload-sum/" \o when \o "/" \o Where)
     /\ Report(NoOvercommit(s), "C10", l, "usage-above-capacity/" \o when \o "/" \o Where)
@@ -88,11 +88,11 @@ TraceNext ==
     /\ LET e == Trace[l] IN
        CASE e.ev = "Run" ->
               /\ hdr' = e /\ pre' = <<>> /\ prior' = <<>> /\ planned' = <<>> /\ injected' = "none" /\ crashed' = "none"
-              /\ msgs' = <<>> /\ retv' = <<>> /\ created' = 0 /\ logged' = 0 /\ nalloc' = <<>>
+              /\ msgs' = <<>> /\ retv' = <<>> /\ created' = 0 /\ logged' = 0 /\ nalloc' = <<>> /\ natural' = "none"
          [] e.ev = "Snap" /\ e.when = "pre" ->
               /\ pre' = e /\ StateChecks(e, "pre-state")
-              /\ UNCHANGED <<hdr, prior, planned, injected, crashed, msgs, retv, created, logged, nalloc>>
-         [] e.ev = "Prior" -> prior' = e.rows /\ UNCHANGED <<hdr, pre, planned, injected, crashed, msgs, retv, created, logged, nalloc>>
+              /\ UNCHANGED <<hdr, prior, planned, injected, crashed, msgs, retv, created, logged, nalloc, natural>>
+         [] e.ev = "Prior" -> prior' = e.rows /\ UNCHANGED <<hdr, pre, planned, injected, crashed, msgs, retv, created, logged, nalloc, natural>>
          [] e.ev = "Ext" ->
               /\ injected' = (IF e.class = "injected" THEN e.target \o "." \o e.method ELSE injected)
               /\ planned' = (IF e.target = "rmgr" /\ e.method = "Alloc" /\ e.class = "ok"
@@ -100,27 +100,30 @@ TraceNext ==
               /\ nalloc' = (IF e.target = "rmgr" /\ e.method = "Alloc" /\ e.class = "ok" THEN Append(nalloc, e.n) ELSE nalloc)
               /\ logged' = (IF e.target = "wal" /\ e.method = "Log" /\ e.type = "create-workload" /\ e.class = "ok" THEN logged + 1 ELSE logged)
               /\ (IF Has(e, "obs") /\ ~e.obserr THEN Report(ObsOK(e, planned'), "C13", l, "count-out-of-bounds-during-deployment/" \o e.target \o "." \o e.method \o "/" \o Where) ELSE TRUE)
-              /\ (IF e.target = "lock" /\ e.class = "ok" /\ Has(e, "cls") THEN Report(LockOrderOK(e), "C20", l, "lock-out-of-order/" \o OpKind) ELSE TRUE)
+              /\ (IF e.target = "lock" /\ e.class # "injected" /\ Has(e, "cls") THEN Report(LockOrderOK(e), "C20", l, "lock-out-of-order/" \o OpKind) ELSE TRUE)
+              \* a call that failed by itself before the injected one: the run has two failures, outside "single failure"
+              /\ natural' = (IF e.class = "err" /\ injected = "none" /\ e.target \in {"store", "rmgr", "engine", "wal"} /\ natural = "none"
+                              THEN e.target \o "." \o e.method ELSE natural)
               /\ UNCHANGED <<hdr, pre, prior, crashed, msgs, retv, created>>
-         [] e.ev = "EngineCreated" -> created' = created + 1 /\ UNCHANGED <<hdr, pre, prior, planned, injected, crashed, msgs, retv, logged, nalloc>>
-         [] e.ev = "Crash" -> crashed' = e.target \o "." \o e.method /\ UNCHANGED <<hdr, pre, prior, planned, injected, msgs, retv, created, logged, nalloc>>
-         [] e.ev = "Msg" -> msgs' = Append(msgs, e) /\ UNCHANGED <<hdr, pre, prior, planned, injected, crashed, retv, created, logged, nalloc>>
-         [] e.ev = "Return" -> retv' = e /\ UNCHANGED <<hdr, pre, prior, planned, injected, crashed, msgs, created, logged, nalloc>>
+         [] e.ev = "EngineCreated" -> created' = created + 1 /\ UNCHANGED <<hdr, pre, prior, planned, injected, crashed, msgs, retv, logged, nalloc, natural>>
+         [] e.ev = "Crash" -> crashed' = e.target \o "." \o e.method /\ UNCHANGED <<hdr, pre, prior, planned, injected, msgs, retv, created, logged, nalloc, natural>>
+         [] e.ev = "Msg" -> msgs' = Append(msgs, e) /\ UNCHANGED <<hdr, pre, prior, planned, injected, crashed, retv, created, logged, nalloc, natural>>
+         [] e.ev = "Return" -> retv' = e /\ UNCHANGED <<hdr, pre, prior, planned, injected, crashed, msgs, created, logged, nalloc, natural>>
          [] e.ev = "Snap" /\ e.when = "post" ->
-              /\ StateChecks(e, "after")
+              /\ (IF injected # "none" /\ natural # "none" THEN TRUE ELSE StateChecks(e, "after"))
               /\ (IF crashed # "none"
                   THEN /\ Report(RecoveredOK(e), "C14", l, WhyRecovered(e) \o "/" \o Where)
                        /\ Report(UsageIsSum(e), "C14", l, "usage-differs-from-workload-sum-after-recovery/" \o Where)
                        /\ Report(NoMarkers(e), "C14", l, "marker-left-after-recovery/" \o Where)
-                  ELSE IF retv = <<>> THEN TRUE
+                  ELSE IF retv = <<>> \/ (injected # "none" /\ natural # "none") THEN TRUE
                   ELSE /\ Report(retv.class # "hang", "C12", l, "operation-never-returned/" \o Where)
                        /\ (IF OpKind = "create" THEN Report(CreateTruthful(e, retv), "C12", l, WhyCreate(e, retv) \o "/" \o Where) ELSE TRUE)
                        /\ (IF OpKind = "create" /\ injected # "store.DeleteProcessing"   \* the injected failure is the clean-up call itself: nothing to judge
                             THEN Report(NoMarkers(e), "C13", l, "marker-left-after-deployment/" \o Where) ELSE TRUE)
                        /\ (IF OpFailed(retv) THEN Report(CoreDiff(pre, e) = "none", "C11", l, "failed-operation-changed-" \o CoreDiff(pre, e) \o "/" \o Where) ELSE TRUE)
                        /\ Report(FailedPartsUntouched(e, retv), "C11", l, "failed-part-changed-its-workload/" \o Where))
-              /\ UNCHANGED <<hdr, pre, prior, planned, injected, crashed, msgs, retv, created, logged, nalloc>>
-         [] OTHER -> UNCHANGED <<hdr, pre, prior, planned, injected, crashed, msgs, retv, created, logged, nalloc>>
+              /\ UNCHANGED <<hdr, pre, prior, planned, injected, crashed, msgs, retv, created, logged, nalloc, natural>>
+         [] OTHER -> UNCHANGED <<hdr, pre, prior, planned, injected, crashed, msgs, retv, created, logged, nalloc, natural>>
     /\ l' = l + 1
 TraceSpec == TraceInit /\ [][TraceNext]_tvars
 TraceAccepted == IF TLCGet("stats").diameter - 1 = Len(Trace)
